@@ -328,29 +328,28 @@ fn run_kernel(f: &[&str]) -> String {
             let v = ex.eval(context! { w => int_value(f[1]) })?;
             Ok(format!("ok:{}", v))
         })),
-        // k fmtw STYLE W → ok:<len>       ("%Wd"|format(7) / "{:W}"|format(7) / precision forms)
+        // k fmtw STYLE W → ok:<len>   printf style through the `format` filter (pw `%Wd`, pz `%0Wd`,
+        // ps `%Ws`, pp `%.Wf`, pg `%.Wg`), str.format style through `minijinja::formatting::format`
+        // (sw `{:W}`, sz `{:0W}`, sc `{:^W}`, sp `{:.Wf}`, sg `{:.Wg}`); argument 7 resp. 7.0 / 1.5
         "fmtw" => finish(guarded(|| {
-            let spec = match f[1] {
-                "pw" => format!("%{}d", f[2]),
-                "pz" => format!("%0{}d", f[2]),
-                "pp" => format!("%.{}f", f[2]),
-                "ps" => format!("%{}s", f[2]),
-                "pstar" => "%*d".to_string(),
-                "sw" => format!("{{:{}}}", f[2]),
-                "sz" => format!("{{:0{}}}", f[2]),
-                "sc" => format!("{{:^{}}}", f[2]),
-                "sg" => format!("{{:0{},}}", f[2]),
-                _ => format!("{{:.{}f}}", f[2]),
+            let (spec, arg) = match f[1] {
+                "pw" => (format!("%{}d", f[2]), Value::from(7)),
+                "pz" => (format!("%0{}d", f[2]), Value::from(7)),
+                "ps" => (format!("%{}s", f[2]), Value::from(7)),
+                "pp" => (format!("%.{}f", f[2]), Value::from(7.0)),
+                "pg" => (format!("%.{}g", f[2]), Value::from(1.5)),
+                "sw" => (format!("{{:{}}}", f[2]), Value::from(7)),
+                "sz" => (format!("{{:0{}}}", f[2]), Value::from(7)),
+                "sc" => (format!("{{:^{}}}", f[2]), Value::from(7)),
+                "sp" => (format!("{{:.{}f}}", f[2]), Value::from(7.0)),
+                _ => (format!("{{:.{}g}}", f[2]), Value::from(1.5)),
             };
-            let ex = env.compile_expression("spec|format(w, 7)|length")?;
-            let r = if f[1] == "pstar" {
-                ex.eval(context! { spec => spec, w => int_value(f[2]) })
+            if f[1].starts_with('p') {
+                let v = env.compile_expression("spec|format(x)|length")?.eval(context! { spec => spec, x => arg })?;
+                Ok(format!("ok:{}", v))
             } else {
-                env.compile_expression("spec|format(7)|length")?.eval(context! { spec => spec })
-            };
-            match r {
-                Ok(v) => Ok(format!("ok:{}", v)),
-                Err(e) => err_s(e),
+                let out = minijinja::formatting::format(minijinja::formatting::FormatStyle::StrFormat, &spec, &[arg])?;
+                Ok(format!("ok:{}", out.len()))
             }
         })),
         // k batch LEN N FILL / k slicef LEN N FILL → ok:l1,l2,…
@@ -400,6 +399,8 @@ fn run_kernel(f: &[&str]) -> String {
                             let sp = rest.len() - rest.trim_start_matches(' ').len();
                             let ca = rest.trim_start_matches(' ');
                             let ca = ca.len() - ca.trim_start_matches('^').len();
+                            // with no caret the separating blank is counted among the spaces
+                            let sp = if ca == 0 { sp.saturating_sub(1) } else { sp };
                             caret = format!("{}:{}", sp, ca);
                         }
                     }
@@ -869,7 +870,14 @@ fn gen_builtin_cases(out: &mut Vec<String>, rng: &mut Rng, thorough: bool) {
     // namespace object
     add_call_cases(out, rng, "namespace:new", &|r, a| {
         format!("{{% set ns = namespace({}) %}}{{% set ns.v = {} %}}{{{{ ns.v }}}}{{{{ ns }}}}{{{{ ns|items|list }}}}{{{{ ns.nosuch({}) }}}}", a, r, a)
-    }, &["1", "xs", "m", "ns", "none"], per * 2, thorough);
+    }, &["1", "xs", "m", "none"], per * 2, thorough);
+    // a namespace that (directly or through a list) contains itself
+    for (i, body) in ["{{ ns }}", "{{ ns.v }}", "{{ ns|items|list }}", "{{ ns|tojson }}", "{{ ns == ns }}", "{{ ns|string|length }}", "{{ ns.v.v.v is defined }}", "{% for k in ns %}{{ k }}{% endfor %}", ""].iter().enumerate() {
+        for how in ["ns", "[ns]", "{'k': ns}"] {
+            let src = format!("{{% set ns = namespace() %}}{{% set ns.v = {} %}}{}", how, body);
+            out.push(format!("t namespace:cycle {} {}", i % 2, hex(src.as_bytes())));
+        }
+    }
     // macros, caller, varargs/kwargs, super/self, method-call syntax on plain values, call on non-callables
     add_call_cases(out, rng, "macro:call", &|r, a| {
         format!("{{% macro mm(p, q=2) %}}{{{{ p }}}}{{{{ q }}}}{{{{ varargs }}}}{{{{ kwargs }}}}{{{{ caller }}}}{{% endmacro %}}{{{{ mm({}) }}}}{{{{ mm.name }}}}{{{{ mm.arguments }}}}{{{{ mm.caller }}}}{{% call({}) mm({}) %}}c{{% endcall %}}", a, if r.chars().all(|c| c.is_ascii_alphanumeric()) && r.chars().next().map_or(false, |c| c.is_ascii_alphabetic()) { r } else { "zz" }, a)
@@ -930,11 +938,14 @@ fn gen_kernel_cases(out: &mut Vec<String>, thorough: bool) {
     for kind in ["list", "tuple", "iter", "unsized"] {
         for l in ["0", "1", "2", "3"] {
             for n in seqn {
+                if kind == "unsized" && l == "0" {
+                    continue; // an empty filter iterator has an exact size hint
+                }
                 out.push(format!("k mulseq {} {} {}", kind, l, n));
             }
         }
     }
-    let widths: &[&str] = &["-1", "0", "1", "4", "100", "65536", "1000000", "1000001", "10000000", "100000000", "100000001", "4294967296", "1099511627776", "4611686018427387904", "9223372036854775807", "9223372036854775808", "18446744073709551615", "18446744073709551616"];
+    let widths: &[&str] = &["-1", "0", "1", "2", "4", "100", "65530", "65531", "65532", "65535", "65536", "1000000", "1000001", "10000000", "100000000", "100000001", "4294967296", "1099511627776", "4611686018427387904", "9223372036854775807", "9223372036854775808", "18446744073709551615", "18446744073709551616"];
     for l in ["0", "1", "5", "9"] {
         for w in widths {
             if w.len() >= 8 && w.len() <= 9 && !(l == "5") {
@@ -950,8 +961,11 @@ fn gen_kernel_cases(out: &mut Vec<String>, thorough: bool) {
     }
     for w in widths {
         out.push(format!("k tojson {}", w));
-        for st in ["pw", "pz", "pp", "ps", "pstar", "sw", "sz", "sc", "sg", "sp"] {
-            if w.starts_with('-') && st != "pstar" {
+        for st in ["pw", "pz", "pp", "ps", "pg", "sw", "sz", "sc", "sg", "sp"] {
+            if w.starts_with('-') {
+                continue;
+            }
+            if (w.len() == 8 || w.len() == 9) && !(st == "pw" || st == "sz" || st == "pp" || st == "sg") {
                 continue;
             }
             out.push(format!("k fmtw {} {}", st, w));
@@ -1226,6 +1240,11 @@ fn main() {
         Some("one") => {
             let case = args[2..].join(" ");
             run_all(vec![case], &["main", "t2m"], Duration::from_secs(120));
+        }
+        Some("info") => {
+            // facts about the build the Lean model assumes
+            println!("size_of_value\t{}", std::mem::size_of::<Value>());
+            println!("pointer_width\t{}", usize::BITS);
         }
         Some("show") => {
             // decode a case for humans
